@@ -35,10 +35,12 @@ CFG = dict(
         "upsert time, VARCHAR(512) limit, document id hex, google/uuid text forms, query translation (DNF groups, "
         "constants converted by column type), TypedValue.Compare with NULL lowest, selectorRanges / refineWith / "
         "extendWith, index choice (selectSortingIndex, selectINLJIndex), inclusive key-range pruning on the chosen "
-        "index, ORDER BY, offset then limit (0 = none), insert / replace (id injection) / delete over per-key version "
+        "index (a bound longer than the column is cut, never an error), ORDER BY, offset then limit (0 = none), insert / replace (id injection) / delete over per-key version "
         "lists, revision = history count, audit paging, the unique check of doUpsert (any live entry under the value "
         "prefix; own unchanged tuple reusable; an earlier document of the same operation with the tuple conflicts), "
-        "CreateIndex(unique) only on a collection without live documents, AddField/RemoveField/DeleteIndex bookkeeping",
+        "CreateIndex(unique) only on a collection without live documents, CreateIndex refused when the entry key (prefix, "
+        "ids, encoded columns with STRING padded to 512, document id) exceeds 1024 bytes, AddField/RemoveField/DeleteIndex "
+        "bookkeeping",
         "index keys are modelled by their ORDER only (cv_kcmp: value order, except -0.0 < +0.0 while the real encoder "
         "gives them different keys; the flag is probed on sql.EncodeValueAsKey / EncodeRawValueAsKey on every run); that "
         "the byte encodings realise this order is property C15",
